@@ -9,20 +9,23 @@ Inductive entry := VConn | VStmt | VTx | VTxStmt.
 Definition recv_of (v : entry) : recv :=
   match v with VConn => RConn | VStmt | VTxStmt => RStmt | VTx => RTx end.
 Definition in_tx (v : entry) : bool := match v with VTx | VTxStmt => true | _ => false end.
-Definition no_faults : faults := mkfaults false false false.
 
 Inductive case :=
-| CTx (f : faults) (b : body)                        (* driver faults, transaction body script *)
+| CTx (cached : bool)                                (* through sqlc.CachedConn (true) or sqlx's conn (false) *)
+      (sw : switches)                                (* sqlx log switches during the run *)
+      (f : faults) (b : body)                        (* driver faults, transaction body script *)
       (o_res : option err)                           (* observed: error returned by Transact/TransactCtx *)
       (o_calls : list call)                          (* observed: calls that reached the SQL driver *)
       (o_escaped : option nat)                       (* observed: panic value that escaped, if any *)
+      (o_runs : nat)                                 (* observed: how many times the body was entered *)
+      (o_seen : list bool)                           (* observed: per issued statement, the body got an error *)
 | COrm (via : entry) (m : meth) (sh : dshape)        (* entry point family, method, destination shape *)
        (cols : list string) (rows : list (list cell))(* the result set *)
        (o_status : result unit)                      (* observed: the query's nil / error class / panic *)
        (o_dest : list dst)                           (* observed: destination, one entry per element *)
-       (o_tx : option (option err * list call * bool)).
+       (o_tx : option (option err * list call * bool * nat)).
                                                      (* inside Transact: its result, begin/commit/rollback
-                                                        log, whether a panic escaped Transact *)
+                                                        log, whether a panic escaped Transact, body runs *)
 
 Fixpoint all2 {A B} (f : A -> B -> bool) (l1 : list A) (l2 : list B) : bool :=
   match l1, l2 with
@@ -59,19 +62,22 @@ Definition run_query (rows_mode strict : bool) (sh : dshape) (cols : list string
 (* --- model agreement: the transcription reproduces the observation exactly --- *)
 Definition model_ok (c : case) : bool :=
   match c with
-  | CTx f b o_res o_calls o_escaped =>
-      let (r, cs) := transact_ctx true f b in
+  | CTx cached sw f b o_res o_calls o_escaped o_runs o_seen =>
+      let (r, cs) := if cached then cached_transact_ctx sw true f b else transact_ctx sw true f b in
       option_eqb err_eqb r o_res && list_eqb call_eqb cs o_calls &&
-      match o_escaped with None => true | Some _ => false end
+      match o_escaped with None => true | Some _ => false end &&
+      Nat.eqb o_runs (if cached then cached_transact_ctx_runs true f else transact_ctx_runs true f) &&
+      seen_ok cs o_seen
   | COrm via m sh cols rows o_status o_dest o_tx =>
       let (ds, st) := run_query (rows_mode m) (strict_flag (recv_of via) m) sh cols rows in
       status_eqb st o_status &&
       match st with Panic => true | _ => list_eqb dst_eqb ds o_dest end &&
       match o_tx, in_tx via with
       | None, false => true
-      | Some (r, cs, esc), true =>
-          let (r', cs') := transact_ctx true no_faults (body_of_query st) in
-          option_eqb err_eqb r' r && list_eqb call_eqb cs' cs && negb esc
+      | Some (r, cs, esc, runs), true =>
+          let (r', cs') := transact_ctx default_switches true no_faults (body_of_query st) in
+          option_eqb err_eqb r' r && list_eqb call_eqb cs' cs && negb esc &&
+          Nat.eqb runs (transact_ctx_runs true no_faults)
       | _, _ => false
       end
   end.
@@ -135,7 +141,10 @@ Definition spec_orm (rows_mode strict : bool) (sh : dshape) (cols : list string)
 
 Definition spec_ok (c : case) : bool :=
   match c with
-  | CTx f b o_res o_calls o_escaped => tx_allowed f b o_res o_calls o_escaped
+  | CTx cached sw f b o_res o_calls o_escaped o_runs o_seen =>
+      (* the outcome table, the body entered exactly once, through either wrapper and under every switch
+         setting; every failing statement was reported to the body *)
+      tx_allowed f b o_res o_calls o_escaped o_runs && seen_ok o_calls o_seen
   | COrm via m sh cols rows o_status o_dest o_tx =>
       (* the row-mapping clauses hold on every entry point; strictness is the method name's *)
       spec_orm (rows_mode m) (spec_strict m) sh cols rows o_status o_dest &&
@@ -143,8 +152,8 @@ Definition spec_ok (c : case) : bool :=
          a successful one to Commit *)
       match o_tx with
       | None => negb (in_tx via)
-      | Some (r, cs, esc) =>
+      | Some (r, cs, esc, runs) =>
           in_tx via &&
-          tx_allowed no_faults (body_of_query o_status) r cs (if esc then Some 0 else None)
+          tx_allowed no_faults (body_of_query o_status) r cs (if esc then Some 0 else None) runs
       end
   end.
